@@ -16,4 +16,19 @@ theorem addMethod_recomputes_default : addMethodRecomputesDefault = true := by d
 theorem removeMethod_recomputes_default : removeMethodRecomputesDefault = true := by decide
 theorem call_stores_under_probed_key : callStoresUnderProbedKey = true := by decide
 
+/-! The model's `step` is atomic: a call probes, builds and stores in one step, and a defmethod /
+    remove-method changes the table and clears the cache in one step (`cache_coherent` is about
+    those steps). In the code that is one critical section of `Aux.moo` each: a probe and the store
+    with no unlock in between, the store under the write lock; table writes and the cache reset with
+    no unlock in between. (`post_quiescence_outcome` is the judgement of the race rounds.) -/
+theorem cache_filled_under_one_write_lock : cacheFilledUnderOneWriteLock = true := by decide
+theorem defmethod_mutates_in_one_section : defmethodMutatesInOneSection = true := by decide
+theorem addMethod_mutates_in_one_section : addMethodMutatesInOneSection = true := by decide
+theorem removeMethod_mutates_in_one_section : removeMethodMutatesInOneSection = true := by decide
+
+/-- The model's cache key is the list of class precedence lists of the required arguments
+    (`Op.call precs`, `class_redefinition_coherent`): the code's key must be made of the whole
+    `Hierarchy()` of each required argument, not of its first element (the class name). -/
+theorem spec_key_is_whole_hierarchy : specKeyIsWholeHierarchy = true := by decide
+
 end SlipVerif.Gen.DispatchFacts
